@@ -13,7 +13,10 @@ type Iterator struct {
 }
 
 func (db *DB) NewIterator(opts IteratorOptions) *Iterator {
+	// 仅在创建索引快照时持有读锁, 保证快照不包含未提交的批处理数据
+	db.mu.RLock()
 	indexIter := db.index.Iterator(opts.Reverse)
+	db.mu.RUnlock()
 	it := &Iterator{
 		db:        db,
 		indexIter: indexIter,
